@@ -12,12 +12,7 @@ namespace SgVerif.C34
 /-- the code after the three repairs (449d71abd2, 89a6e6f865, a2a9f2f5cf) -/
 def fixedV : Variant := ⟨true, true, true⟩
 
-def Call.target : Call → Nat
-  | .put t _ _ => t
-  | .get _ t _ _ => t
-  | .acc t _ _ _ => t
-  | .gacc _ t _ _ _ => t
-  | .cas _ t _ _ _ => t
+-- `Call.target` (the rank whose window a call accesses) is defined in Model.lean
 
 /-- one exclusive-lock epoch of a rank: MPI_Win_lock(EXCLUSIVE, t); the calls; MPI_Win_unlock(t) -/
 structure Epoch where
